@@ -110,6 +110,11 @@ func checkC05(c *Ctx, r *Report) {
 				if len(p) == 0 || p[len(p)-1] != "Header" || structName(rt.Type()) != "net/http.Request" {
 					return
 				}
+				if nm, isC := constString(args[1]); isC && nm == "User-Agent" {
+					if v, isV := constString(args[2]); isV && v == "" {
+						return // suppresses net/http's default User-Agent; adds nothing
+					}
+				}
 				n5++
 				onClone := false
 				if cl, isCall := resolveVal(rt).(*ssa.Call); isCall && calleeName(cl) == "(*net/http.Request).Clone" {
